@@ -19,7 +19,7 @@ import math
 import numpy as np
 from astropy.table import Table
 
-from .. import scenes, corrsim
+from .. import scenes, corrsim, alignsim
 from ..scenes import Aff
 from . import c01, c02
 
@@ -101,7 +101,15 @@ def scenario(ctx, lines, pend):
         aligned_before = rng.random() < 0.35
         if aligned_before:
             m = pre_align(rng, m)
-        info = dict(info, prior=[h[0] for h in hist] + (['aligned'] if aligned_before else []))
+        # ... and may then be handed over as a corrector freshly built from its corrected WCS (the state in which a
+        # pipeline reloads an image between two alignment passes): nothing intervenes between the re-wrap and
+        # the alignment
+        rewrapped_last = bool(hist or aligned_before) and rng.random() < 0.35
+        if rewrapped_last:
+            m = scenes.rewrap(m)
+            ctx.branch('member-rewrapped-just-before-alignment')
+        info = dict(info, prior=[h[0] for h in hist] + (['aligned'] if aligned_before else []) +
+                    (['W-last'] if rewrapped_last else []))
         members.append(m)
         infos.append(info)
     # reference plane
@@ -150,11 +158,15 @@ def scenario(ctx, lines, pend):
             'G': [G.M.tolist(), G.t.tolist()], 'big': big, 'infos': infos}
     ctx.case(case, nontrivial=nmem >= 2 or pk != 'default', branch='%s:%s:n%d' % (gk, pk, nmem))
 
+    # the group label is any hashable, falsy ones (0, '', (), False) included
+    label_idx = rng.randrange(len(alignsim.LABEL_POOL))
+    case['group_label'] = repr(alignsim.LABEL_POOL[label_idx])
+
     def run_align(plane_argument):
         ms = [m.copy() for m in members]
         for k, m in enumerate(ms):
             m.meta['catalog'] = cats[k].copy()
-            m.meta['group_id'] = 7
+            m.meta['group_id'] = alignsim.LABEL_POOL[label_idx]
             m.meta['name'] = 'im%d' % k
         align_wcs(ms, refcat=refcat.copy(), ref_tpwcs=plane_argument, fitgeom=fitgeom, match=None,
                   nclip=None, sigma=3.0, minobj=None)
